@@ -18,7 +18,9 @@ import (
 	"net/url"
 	"os"
 	"strconv"
+	"strings"
 	"sync"
+	"sync/atomic"
 	"time"
 
 	"reservoir/cache"
@@ -62,7 +64,16 @@ func rsCache(dir, backend string, seed uint64, workers, ops int) {
 	for i := range keys {
 		keys[i] = cache.FromString(fmt.Sprintf("rs-%d-%d", seed, i))
 	}
-	body := bytes.Repeat([]byte("x"), 700)
+	// every stored body encodes its version (the metadata object) and has a version-dependent length, so a
+	// reader can tell whether the metadata it was handed describes the bytes it reads (C01, concurrently)
+	mkBody := func(ver int) []byte {
+		b := make([]byte, 100+(ver*37)%600)
+		for i := range b {
+			b[i] = byte(ver*131 + i*7 + 3)
+		}
+		return b
+	}
+	var verCtr atomic.Int64
 	var wg sync.WaitGroup
 	sink := 0
 	var sinkMu sync.Mutex
@@ -77,12 +88,21 @@ func rsCache(dir, backend string, seed uint64, workers, ops int) {
 				k := keys[r.Intn(len(keys))]
 				switch r.Intn(12) {
 				case 0, 1, 2:
-					if e, err := c.Cache(k, bytes.NewReader(body[:100+r.Intn(600)]), time.Now().Add(time.Duration(r.Intn(6)-1)*time.Millisecond), i); err == nil {
+					ver := int(verCtr.Add(1))
+					if e, err := c.Cache(k, bytes.NewReader(mkBody(ver)), time.Now().Add(time.Duration(r.Intn(6)-1)*time.Millisecond), ver); err == nil {
 						e.Data.Close()
 					}
 				case 3, 4, 5, 6:
 					// what the proxy does with a hit: read the entry's metadata after Get has returned
 					if e, err := c.Get(k); err == nil {
+						if got, rerr := io.ReadAll(e.Data); rerr == nil {
+							want := mkBody(e.Metadata.Object)
+							if int64(len(got)) != e.Metadata.Size || !bytes.Equal(got, want) {
+								rsPanicMu.Lock()
+								rsPanics = append(rsPanics, fmt.Sprintf("MISPAIRED: metadata says version %d size %d, the body handed out has %d bytes (equal to that version's body: %v)", e.Metadata.Object, e.Metadata.Size, len(got), bytes.Equal(got, want)))
+								rsPanicMu.Unlock()
+							}
+						}
 						if e.Metadata.Expires.After(time.Now()) {
 							local += int(e.Metadata.Size) + e.Metadata.Object
 						}
@@ -353,7 +373,11 @@ func init() {
 				defer func() {
 					rsPanicMu.Lock()
 					if len(rsPanics) > 0 && obs == "completed" {
-						obs = "panic(" + rsPanics[0] + ")"
+						if strings.HasPrefix(rsPanics[0], "MISPAIRED") {
+							obs = rsPanics[0]
+						} else {
+							obs = "panic(" + rsPanics[0] + ")"
+						}
 					}
 					rsPanicMu.Unlock()
 				}()
@@ -389,11 +413,12 @@ func init() {
 			}
 			for i := 0; i < n; i++ {
 				for _, sc := range []string{"cache-mem", "cache-file", "event", "syncmap", "session", "proxy-mem", "proxy-file"} {
-					ops := 150
+					ops, workers := 150, 4+r.Intn(4)
 					if sc[:5] == "proxy" {
-						ops = 40
+						// enough overlap of hits (answering from a snapshot) with revalidations of the same key
+						ops, workers = 400, 8
 					}
-					emit("rs", "run", sc, strconv.Itoa(1+r.Intn(1000000)), strconv.Itoa(4+r.Intn(4)), strconv.Itoa(ops))
+					emit("rs", "run", sc, strconv.Itoa(1+r.Intn(1000000)), strconv.Itoa(workers), strconv.Itoa(ops))
 				}
 			}
 		},
